@@ -39,10 +39,14 @@ const (
 	ckLeadDoc        // "\n/* c1 */ next" : doc comment at the start of the token's line
 	ckInDoc          // "prev /* c1 */ next" inside a line
 	ckEnd
+	// white-space insertions (no comment): the NEXT token starts a new line / comes after an empty line
+	ckBreak // "prev\nnext" where the layout has no line break
+	ckBlank // "prev\n\nnext" (an empty line)
+	ckEndAll
 )
 
 var ckNames = map[ckind]string{ckNone: "none", ckOwnLine: "own-line", ckOwnDoc: "own-doc", ckTrailLn: "trail-line",
-	ckTrailDoc: "trail-doc", ckLeadDoc: "lead-doc", ckInDoc: "inline-doc"}
+	ckTrailDoc: "trail-doc", ckLeadDoc: "lead-doc", ckInDoc: "inline-doc", ckBreak: "line-break", ckBlank: "empty-line"}
 
 const (
 	lineComment = "// c1"
@@ -85,6 +89,10 @@ func applicable(toks []tok, lay int, ins insertion) bool {
 		return ins.At < n
 	case ckInDoc:
 		return ins.At >= 1 && ins.At < n && !strings.Contains(sepBefore(toks, ins.At, lay), "\n")
+	case ckBreak:
+		return ins.At >= 1 && ins.At < n && !strings.Contains(sepBefore(toks, ins.At, lay), "\n")
+	case ckBlank:
+		return true
 	}
 	return false
 }
@@ -127,6 +135,10 @@ func render(toks []tok, lay int, ins *insertion) string {
 				sep = nl + docComment + " "
 			case ckInDoc:
 				sep = " " + docComment + " "
+			case ckBreak:
+				sep = "\n"
+			case ckBlank:
+				sep = "\n\n"
 			}
 		}
 		sb.WriteString(sep)
@@ -242,7 +254,37 @@ func streamsOf(src string) (comments string, tokens string, err error) {
 		}
 	}
 	sort.Strings(cs)
-	return strings.Join(cs, "\x01"), strings.Join(ts, " "), nil
+	return strings.Join(cs, "\x01"), strings.Join(dropOptional(ts), " "), nil
+}
+
+// dropOptional removes from a token sequence what the grammar makes optional and the AST does not
+// keep: the ";" after a route, and request / response bodies that declare nothing ("()" and
+// "returns ()"; the same holds for the "()" of info / import / type / @server / @doc groups without
+// an entry). "Same API description" cannot depend on them; everything else must stay, in order.
+func dropOptional(ts []string) []string {
+	has := false
+	for i, t := range ts {
+		if t == ";" || (t == "(" && i+1 < len(ts) && ts[i+1] == ")") {
+			has = true
+			break
+		}
+	}
+	if !has {
+		return ts
+	}
+	var out []string
+	for i := 0; i < len(ts); i++ {
+		switch {
+		case ts[i] == ";":
+		case ts[i] == "returns" && i+2 < len(ts) && ts[i+1] == "(" && ts[i+2] == ")":
+			i += 2
+		case ts[i] == "(" && i+1 < len(ts) && ts[i+1] == ")":
+			i++
+		default:
+			out = append(out, ts[i])
+		}
+	}
+	return out
 }
 
 // ---------------------------------------------------------------------------------------------
@@ -271,6 +313,12 @@ type verdict struct {
 //	               scanner must be unchanged too (catches anything parser and formatter lose
 //	               consistently); it is off where the formatter may drop an empty container.
 func checkSource(src string, strictTokens bool) verdict {
+	return checkSourceWith(src, strictTokens, realFormat)
+}
+
+// checkSourceWith: the same oracles with the formatter reached through another entry point
+// (entry.go: format.File).
+func checkSourceWith(src string, strictTokens bool, realFormat func(string) (string, error, string)) verdict {
 	var v verdict
 	if len(src) == 0 {
 		return v // scanner.MustNewScanner log.Fatal()s on empty input: outside the property's domain
